@@ -12,7 +12,7 @@ CFG = dict(
     trusted=COMMON_TRUSTED + ["compiled Go (whole program; histories rendered with function variables) and yaegi's own evaluation in one piece as references",
                               "hand-written model Session/Model.v of the session mechanics (interp/ast.go parse, interp/gta.go, interp/cfg.go funcDecl/genGlobalVarDecl, interp/program.go CompileAST/Execute), tied by behavioural correspondence on every generated session (status, value and output of every evaluation, final globals, pointer targets)"],
     level_text="Coq theorems (unbounded: all programs of the model language, all cuts of declarations and statements, all call depths, all chunk lists) about an executable model of yaegi's session mechanics (Y: persistent package scope, sticky source name with imports keyed by it, directories evaluated in a scope of their own, two-phase compile of each chunk with static binding of callees, main appended to the init list whenever the scope holds one, genGlobalVarDecl's per-chunk dependency check) and of the contract (G: items take effect in order, calls run the current definition, a chunk declaring main runs it once); Y is tied to the implementation and G to compiled Go on every run by correspondence evaluated inside Coq, through the entry points Eval, Compile+Execute, CompileAST+Execute, EvalPath (disk and MapFS) and Compile-all-then-Execute-all.",
-    level_note="Trusted: Coq kernel + vm_compute, no axioms; harness; Go toolchain. The model language is small (int globals, one pointer kind, one-parameter functions, prints); richer programs (types with methods, closures, slices, maps, interfaces, channels), structured main bodies (blocks with local := declarations and closures, fed inside func main and as top-level chunks) and multi-file packages with cross-file initialiser dependencies in both directions are checked behaviourally only (yaegi piecewise against yaegi whole and against compiled Go).",
+    level_note="Trusted: Coq kernel + vm_compute, no axioms; harness; Go toolchain. The model language is small (int globals, one pointer kind, one-parameter functions, prints); richer programs (types with methods, closures, slices, maps, interfaces, channels), sessions that redefine functions referred to through function literals (local, invoked, deferred, nested, in package variables, in methods, recursion through a literal; checked against the program where every definition has its own name), structured main bodies (blocks with local := declarations and closures, fed inside func main and as top-level chunks) and multi-file packages with cross-file initialiser dependencies in both directions are checked behaviourally only (yaegi piecewise against yaegi whole and against compiled Go).",
     technique="Coq proof by simulation (compiled code with callees bound to code ids against source with callees by name) and induction over chunk lists + model/implementation correspondence evaluated in Coq",
     assumptions=["the order in which genGlobalVarDecl initialises the variables of one chunk is source order (true for declaration-ordered programs; the general case is C15)",
                  "compile errors other than the three modelled (mixed chunk, undefined function, definition loop) and the state left behind by a failed chunk are outside the model",
